@@ -1,6 +1,6 @@
 (* MultiIO.v — decoding of C10 cases / encoding of observations for Multi.v. *)
 From Coq Require Import List Arith Bool.
-From M Require Import Sx Base Flat FlatIO Multi.
+From M Require Import Sx Base Flat FlatIO Multi QueueIO.
 Import ListNotations.
 
 Definition d_class (x : sx) : option mclass :=
@@ -14,6 +14,7 @@ Definition d_class (x : sx) : option mclass :=
 Definition d_op (x : sx) : option op :=
   match x with
   | L [N 0; N m; ini] => do i <- d_option d_nat ini; Some (OAddModel m i)
+  | L [N 6; ms; ini] => do ms' <- d_list d_nat ms; do i <- d_option d_nat ini; Some (OAddModels ms' i)
   | L [N 1; N m] => Some (ORemoveModel m)
   | L [N 2; N s; sd] => do sd' <- d_sdef sd; Some (OAddState s sd')
   | L [N 3; N e; t] => do t' <- d_trans t; Some (OAddTransition e t')
@@ -122,18 +123,24 @@ Definition graph_self (k : mclass) (w : mworld) (self : option model) : mworld :
   end.
 
 (* case := [0; class; machine; initial; env; ctor models; ctor transitions; universe size; self; history]
-         | [1; hsm; desc0; desc1; calls] *)
+         | [1; hsm; desc0; desc1; calls]
+         | 2 :: <a C05 queue case: machine; env; models; history> *)
 Definition run_multi_case (x : sx) : sx :=
   match x with
   | L [N 0; kx; mcx; N ini; evx; imx; itx; N n; selfx; hx] =>
       match d_class kx, d_machine mcx, d_env evx, d_list d_nat imx,
             d_list (d_pair d_nat d_trans) itx, d_list d_op hx, d_option d_nat selfx with
       | Some k, Some mc, Some ev, Some im, Some it, Some hs, Some self =>
-          let w1 := run k ev (init_world mc ini) (map (fun m => OAddModel m None) im) in
+          (* Machine.__init__: `if model: self.add_model(model)` — ONE call with the list; AsyncMachine.__init__
+             adds the models one by one *)
+          let ctor := if k_async k then map (fun m => OAddModel m None) im
+                      else match im with [] => [] | _ => [OAddModels im None] end in
+          let w1 := run k ev (init_world mc ini) ctor in
           let w0 := run k ev (graph_self k w1 self) (map (fun p => OAddTransition (fst p) (snd p)) it) in
           L [N 1; e_world n w0; L (run_mhistory k ev n hs w0)]
       | _, _, _, _, _, _, _ => L [N 0]
       end
+  | L (N 2 :: rest) => run_queue_case (L rest)      (* queued machine, callbacks trigger / remove models: Queue.v *)
   | L [N 1; hx; d0x; d1x; cx] =>
       match d_bool hx, d_desc d0x, d_desc d1x, d_list d_hname cx with
       | Some hsm, Some (d0, ev0), Some (d1, ev1), Some cs =>
